@@ -53,6 +53,7 @@ type envOpts struct {
 	WithCA         bool   `json:"with_ca"`
 	Server         bool   `json:"server"` // serve through the real http.Server over in-memory pipes
 	BudgetPercent  int    `json:"budget_percent"`
+	Plain          bool   `json:"plain"` // configure through the update API instead of command-line overwrites
 }
 
 type penv struct {
@@ -92,6 +93,34 @@ func newEnv(o envOpts) *penv {
 	}
 	e := &penv{opts: o}
 	cfg := config.NewDefault()
+	if o.Plain {
+		// settings go in through the update API (no command-line overwrites), so that later
+		// updates of the same properties take effect
+		typ := "memory"
+		if o.Backend == "file" {
+			typ = "file"
+		}
+		e.dir = filepath.Join(scratchRoot, "pc")
+		_, err := config.UpdatePartialFromConfig(cfg, map[string]any{
+			"proxy": map[string]any{"upstream_default_https": false, "retry_on_range_416": o.Retry416, "retry_on_invalid_range": o.RetryInvalid,
+				"cache_policy": map[string]any{"ignore_cache_control": o.IgnoreCC, "force_default_max_age": o.ForceDefault, "default_max_age": strconv.Itoa(o.DefaultMaxAgeS) + "s"}},
+			"cache": map[string]any{"lock_shards": o.Shards, "type": typ, "cleanup_interval": "100000h", "file": map[string]any{"dir": e.dir}},
+		})
+		if err != nil {
+			panic(err)
+		}
+		e.cfg = cfg
+		ctx, cancel := context.WithCancel(context.Background())
+		e.cancel = cancel
+		p, err := NewProxy(cfg, nil, ctx)
+		if err != nil {
+			panic(err)
+		}
+		e.p = p
+		e.origin = vnet.NewOrigin()
+		e.origin.Install()
+		return e
+	}
 	cfg.Proxy.UpstreamDefaultHttps.Overwrite(false)
 	cfg.Proxy.RetryOnRange416.Overwrite(o.Retry416)
 	cfg.Proxy.RetryOnInvalidRange.Overwrite(o.RetryInvalid)
